@@ -410,7 +410,7 @@ def run_stream(ctx, impl, drv, trees, nstates, dev, stats, maxfd, max_report=6):
         nfail += 1
         if len(found) < max_report:
             for key, what in fs[:3]:
-                rp = {"model": trees[owner[i]].text(), "op_index_in_model": i, "line": lines[i][:600],
+                rp = {"model": trees[owner[i]].text(), "op_index_in_stream": i, "line": lines[i][:600],
                       "how": "feed `model <model>` and the recorded `set` / op lines to the c07_oracle harness built by checks/c07.py"}
                 if extra:
                     rp.update(extra)
@@ -455,7 +455,10 @@ def run_stream(ctx, impl, drv, trees, nstates, dev, stats, maxfd, max_report=6):
             judge_jacobians(cur, info, dev, fs, stats)
             stats["jacobian_states"] = stats.get("jacobian_states", 0) + 1
             if fs:
-                report(cur["line"], fs, {"qpos": cur["qpos"], "qvel": cur["qvel"]})
+                report(cur["line"], fs, {"qpos": cur["qpos"], "qvel": cur["qvel"], "body_points": cur["pts"],
+                                         "recipe": "set qpos; set qvel; kin; com; jacs; vel; `jacdot b r0 r1 r2` for (b, r) in body_points  "
+                                                   "versus  [`jacpt b r` after (set qpos; integ +1e-6 qvel; kin; com)  minus  the same "
+                                                   "with -1e-6] / 2e-6;  per-dof Jacobian columns likewise with `integ +-1e-6 e_i`"})
         cur = None
     for i, (l, o, mt) in enumerate(zip(lines, outs, meta)):
         k = mt["kind"]
@@ -475,7 +478,8 @@ def run_stream(ctx, impl, drv, trees, nstates, dev, stats, maxfd, max_report=6):
                 report(i, fs)
             if mt.get("role") == "base":
                 flush(i)
-                cur = {"line": i, "qpos": mt["base"]["qpos"], "qvel": mt["base"]["qvel"], "base": {"kin": fk}, "pert": {},
+                cur = {"line": i, "qpos": mt["base"]["qpos"], "qvel": mt["base"]["qvel"], "pts": mt["base"]["pts"],
+                       "base": {"kin": fk}, "pert": {},
                        "jacpt": {}, "jacsparse": [], "jacdot": {}, "jacpt_pert": {}, "complete": False}
             elif mt.get("role") == "pert" and cur is not None:
                 cur["_p"] = {"kin": fk}
